@@ -11,7 +11,7 @@ import math
 import os
 from fractions import Fraction
 
-from ..core import env, par, shrink
+from ..core import env, par, result, shrink
 from ..core.result import Failure, Report, robust
 
 ID = "C07"
@@ -240,9 +240,9 @@ def _work(arg):
                 hist_fails.append((t, hb[0]))
     out = []
     seen = set()
-    for t in fails:
-        f = robust(mk_failure, {"table": [[k, v] for k, v in tkey(t)]}, t, names)
-        if f and f.key() not in seen:
+    wit = lambda t: {"table": [[k, v] for k, v in tkey(t)]}  # noqa
+    for f in result.shrink_within_budget(fails, lambda t: robust(mk_failure, wit(t), t, names), wit):
+        if f.key() not in seen:
             seen.add(f.key())
             out.append(f)
     for t, b in hist_fails[:3]:
